@@ -308,6 +308,7 @@ class Program:
                             discr[mm.group(1)] = nxt
                             nxt += 1
                     self.enum_variants.setdefault(m.group(1), names)
+                    self.__dict__.setdefault("enum_bodies", {}).setdefault(m.group(1), body)
                     if any(discr[n] != i for i, n in enumerate(names)):
                         ENUM_DISCR.setdefault(m.group(1), discr)
 
